@@ -113,6 +113,14 @@ pub fn replication_fetcher_queues(driver: &SwarmDriver) -> (Vec<FetcherEntry>, V
     crate::replication_fetcher::verif::queues_of(&driver.replication_fetcher)
 }
 
+/// Read-only copies of `distance_range` and `farthest_acceptable_distance` of the driver's
+/// replication fetcher.
+pub fn replication_fetcher_bounds(
+    driver: &SwarmDriver,
+) -> (Option<ant_evm::U256>, Option<libp2p::kad::KBucketDistance>) {
+    crate::replication_fetcher::verif::bounds_of(&driver.replication_fetcher)
+}
+
 /// Simulate `d` of time passing for the replication machinery of this driver: every deadline of the
 /// replication fetcher, `last_replication` and every `replication_targets` timestamp move back by `d`.
 /// Returns false if some `Instant` could not be moved that far back (it is then left unchanged).
